@@ -2,7 +2,8 @@
 
 package native
 
-// Role B/C harness for C16 (native BGP wire format).  Inputs are enumerated by TLC
+// Role B/C harness for C16 (native BGP wire format).  Inputs (single sends, histories of sends on
+// one connection, octet strings for the OPEN reader) are enumerated by TLC
 // (spec/BGPWireMC.tla); this file calls the real sendOpen / sendUpdate / sendWithdraw /
 // sendKeepalive into a buffer and the real readOpen on a counting reader under a watchdog, and
 // logs what happened.  No judgement happens here: the octets are decoded and compared by TLC
@@ -11,6 +12,7 @@ package native
 import (
 	"bufio"
 	"encoding/json"
+	"errors"
 	"fmt"
 	"io"
 	"net"
@@ -48,18 +50,30 @@ type vWireInput struct {
 	// read
 	Stream []int `json:"stream"`
 	Chunk  int   `json:"chunk"`
+	// history: several sends on one process / connection object; a step carries failat (the
+	// connection accepts that many octets of this call, then fails; -1 = never) and expect
+	Steps  []json.RawMessage `json:"steps"`
+	Failat int               `json:"failat"`
+	Expect string            `json:"expect"`
 }
 
 type vWireWriteObs struct {
 	ID       string          `json:"id"`
 	Kind     string          `json:"kind"`
 	P        json.RawMessage `json:"p"`
-	Bytes    []int           `json:"bytes"`
+	Bytes    []int           `json:"bytes"` // octets the connection accepted during this call
 	NWritten int             `json:"nwritten"`
+	Offered  int             `json:"offered"` // octets handed to Write during this call
 	Writes   int             `json:"writes"`
 	Err      string          `json:"err"`
 	Panic    string          `json:"panic"`
 	Timeout  bool            `json:"timeout"`
+}
+
+type vWireHistObs struct {
+	ID    string          `json:"id"`
+	Kind  string          `json:"kind"`
+	Steps []vWireWriteObs `json:"steps"`
 }
 
 type vWireReadObs struct {
@@ -114,16 +128,32 @@ func vWireNet(p vWirePfx) *net.IPNet {
 	return &net.IPNet{IP: vWireIP(p.Addr, p.Ipform), Mask: net.CIDRMask(p.Plen, 32)}
 }
 
-// vWireSink is the "connection" the writers write to.
+// vWireSink is the "connection" the writers write to.  It delimits calls (begin) and can fail
+// after having accepted failat octets of the current call (failat < 0: never).
 type vWireSink struct {
-	buf    []byte
-	writes int
-	n      int
+	buf     []byte
+	writes  int
+	n       int
+	offered int
+	failat  int
+}
+
+var vWireConnErr = errors.New("verif: connection write failed")
+
+func (s *vWireSink) begin(failat int) {
+	s.buf, s.writes, s.n, s.offered, s.failat = nil, 0, 0, 0, failat
 }
 
 func (s *vWireSink) Write(p []byte) (int, error) {
-	s.buf = append(s.buf, p...)
 	s.writes++
+	s.offered += len(p)
+	if s.failat >= 0 && s.n+len(p) > s.failat {
+		k := s.failat - s.n
+		s.buf = append(s.buf, p[:k]...)
+		s.n += k
+		return k, vWireConnErr
+	}
+	s.buf = append(s.buf, p...)
 	s.n += len(p)
 	return len(p), nil
 }
@@ -176,43 +206,91 @@ func vWireGuard(fn func()) (string, bool) {
 	}
 }
 
-func vWireWrite(in *vWireInput, raw []byte) vWireWriteObs {
-	sink := &vWireSink{}
+func vWireComm(c []int) community.BGPCommunity {
+	var cm community.BGPCommunity
 	var err error
-	pn, to := vWireGuard(func() {
-		switch in.Kind {
-		case "open":
-			err = sendOpen(sink, vWireU32(in.Asn), vWireIP(in.Rid, 4), time.Duration(in.Hold)*time.Second)
-		case "update":
-			adv := &bgp.Advertisement{Prefix: vWireNet(in.vWirePfx), LocalPref: vWireU32(in.Lp)}
-			for _, c := range in.Comms {
-				cm, cerr := community.New(fmt.Sprintf("%d:%d", c[0], c[1]))
-				kit.Must(cerr)
-				adv.Communities = append(adv.Communities, cm)
-			}
-			err = sendUpdate(sink, vWireU32(in.Asn), in.Ibgp, in.Fbasn, net.IP(vWireBytes(in.Nh)), adv)
-		case "withdraw":
-			var ps []*net.IPNet
-			for _, p := range in.Prefixes {
-				ps = append(ps, vWireNet(p))
-			}
-			err = sendWithdraw(sink, ps)
-		case "keepalive":
-			err = sendKeepalive(sink)
-		default:
-			panic("verif: unknown writer kind " + in.Kind)
+	if len(c) == 3 {
+		cm, err = community.New(fmt.Sprintf("large:%d:%d:%d", c[0], c[1], c[2]))
+	} else {
+		cm, err = community.New(fmt.Sprintf("%d:%d", c[0], c[1]))
+	}
+	kit.Must(err)
+	return cm
+}
+
+// vWireSend performs one send on the sink (the caller has called sink.begin).
+func vWireSend(sink *vWireSink, in *vWireInput) error {
+	switch in.Kind {
+	case "open":
+		return sendOpen(sink, vWireU32(in.Asn), vWireIP(in.Rid, 4), time.Duration(in.Hold)*time.Second)
+	case "update":
+		adv := &bgp.Advertisement{Prefix: vWireNet(in.vWirePfx), LocalPref: vWireU32(in.Lp)}
+		for _, c := range in.Comms {
+			adv.Communities = append(adv.Communities, vWireComm(c))
 		}
-	})
-	o := vWireWriteObs{ID: in.ID, Kind: in.Kind, P: json.RawMessage(raw), Panic: pn, Timeout: to}
+		return sendUpdate(sink, vWireU32(in.Asn), in.Ibgp, in.Fbasn, net.IP(vWireBytes(in.Nh)), adv)
+	case "withdraw":
+		var ps []*net.IPNet
+		for _, p := range in.Prefixes {
+			ps = append(ps, vWireNet(p))
+		}
+		return sendWithdraw(sink, ps)
+	case "keepalive":
+		return sendKeepalive(sink)
+	}
+	panic("verif: unknown writer kind " + in.Kind)
+}
+
+func vWireCallObs(id string, in *vWireInput, raw []byte, sink *vWireSink, err error, pn string, to bool) vWireWriteObs {
+	o := vWireWriteObs{ID: id, Kind: in.Kind, P: json.RawMessage(raw), Panic: pn, Timeout: to, Bytes: []int{}}
 	if !to {
-		o.Bytes, o.NWritten, o.Writes = vWireInts(sink.buf), sink.n, sink.writes
+		o.Bytes, o.NWritten, o.Offered, o.Writes = vWireInts(sink.buf), sink.n, sink.offered, sink.writes
 		if err != nil {
 			o.Err = err.Error()
 		}
-	} else {
-		o.Bytes = []int{}
 	}
 	return o
+}
+
+func vWireWrite(in *vWireInput, raw []byte) vWireWriteObs {
+	sink := &vWireSink{}
+	sink.begin(-1)
+	var err error
+	pn, to := vWireGuard(func() { err = vWireSend(sink, in) })
+	return vWireCallObs(in.ID, in, raw, sink, err, pn, to)
+}
+
+// vWireHistory performs the sends of one history one after the other in ONE goroutine on one
+// connection object; a panic or a hang ends the history (the remaining steps are logged as not run).
+func vWireHistory(in *vWireInput) vWireHistObs {
+	out := vWireHistObs{ID: in.ID, Kind: "history", Steps: []vWireWriteObs{}}
+	steps := make([]vWireInput, len(in.Steps))
+	for i, raw := range in.Steps {
+		if err := json.Unmarshal(raw, &steps[i]); err != nil {
+			panic("verif: history step: " + err.Error())
+		}
+	}
+	sink := &vWireSink{}
+	done := 0
+	var obs []vWireWriteObs
+	pn, to := vWireGuard(func() {
+		for i := range steps {
+			sink.begin(steps[i].Failat)
+			err := vWireSend(sink, &steps[i])
+			obs = append(obs, vWireCallObs(in.ID, &steps[i], in.Steps[i], sink, err, "", false))
+			done = i + 1
+		}
+	})
+	if to {
+		// the goroutine may still be running: do not touch what it owns
+		out.Steps = append(out.Steps, vWireWriteObs{ID: in.ID, Kind: steps[0].Kind, P: in.Steps[0], Bytes: []int{}, Timeout: true})
+		return out
+	}
+	out.Steps = append(out.Steps, obs...)
+	if pn != "" && done < len(steps) {
+		out.Steps = append(out.Steps, vWireCallObs(in.ID, &steps[done], in.Steps[done], sink, nil, pn, false))
+	}
+	return out
 }
 
 func vWireRead(in *vWireInput) vWireReadObs {
@@ -267,6 +345,8 @@ func TestVerifWire(t *testing.T) {
 		}
 		if in.Kind == "read" {
 			out.Write(vWireRead(&in))
+		} else if in.Kind == "history" {
+			out.Write(vWireHistory(&in))
 		} else {
 			out.Write(vWireWrite(&in, raw))
 		}
